@@ -30,6 +30,11 @@ DecodeOk(r) ==
           LET ec == ExpectedClass(r.frame) IN
           /\ ec = "typed" => r.out = "Typed"
           /\ ec = "corrupt" => r.out = "Corrupt"
+    \* a proper byte-truncation of a frame the encoder produced lacks bits the decoder needs (the encoder pads by < 8 bits)
+    /\ r.tag = "encoder-cut" =>
+          /\ Classify(r.parent) = "ok" /\ Len(r.parent) = FrameLen(r.parent)
+          /\ DeclLen(r.frame) < DeclLen(r.parent) /\ Payload(r.frame) = SubSeq(Payload(r.parent), 1, DeclLen(r.frame))
+          /\ DeclLen(r.frame) >= 2 => r.out = "Corrupt"
     /\ r.out = "Typed" => /\ r.number = r.variant_number                   \* Message::number() = digits of the variant name
                           /\ r.nonfinite = <<>>                            \* every float of a decoded message is finite
                           /\ r.self_eq = TRUE                              \* and it compares equal to itself
